@@ -25,8 +25,11 @@ def run(ctx):
     destlib.mc(ctx, "Destination_c06.cfg", dict(small, Mutant="DropNoCount"), expect={"Conservation_steady", "SteadyHealthy"}, count=False)
     # a healthy endpoint that pauses (no progress for a while, then reads everything): the writer blocks, the relay drops
     # and counts; a relay-side write timeout that closes the connection and discards its queue uncounted is rejected
-    paused = dict(base, InitModes={"paused", "healthy"}, Modes={"paused", "healthy"}, MaxChanges=ctx.pick(1, 2))
-    destlib.mc(ctx, "Destination_c06.cfg", paused)
+    # (the base run above contains healthy -> paused -> healthy and paused -> healthy; thorough adds repeated pauses)
+    paused = dict(base, InitModes={"paused", "healthy"}, Modes={"paused", "healthy"}, MaxChanges=2)
+    if not q:
+        destlib.mc(ctx, "Destination_c06.cfg", paused)
+        destlib.mc(ctx, "Destination_c06.cfg", dict(paused, N=4, Q=2, IOB=1, KB=1, MaxChanges=3))
     destlib.mc(ctx, "Destination_c06.cfg", dict(paused, InitModes={"paused"}, Modes={"healthy"}, MaxChanges=0, Mutant="WriteTimeoutDrop"),
                expect={"Conservation_steady", "SteadyHealthy"}, count=False)
 
